@@ -64,7 +64,9 @@ def random_lp(rng, m=None, n=None, kind=None, name="r"):
         rhs = rand_q(rng, kind)
         rg = F(rng.randint(0, 5)) if s == "R" else F(0)
         rows.append((s, rhs, rg, ent))
-    return mk(name, rng.random() < 0.5, cols, rows)
+    lp = mk(name, rng.random() < 0.5, cols, rows)
+    lp["numbers"] = kind
+    return lp
 
 
 def planted_lp(rng, m=None, n=None, kind=None, name="pl"):
@@ -128,6 +130,7 @@ def planted_lp(rng, m=None, n=None, kind=None, name="pl"):
         c = aty + dz
         cols[j][0] = -c if mx else c
     lp = mk(name, mx, cols, rows)
+    lp["numbers"] = kind
     return lp
 
 
